@@ -123,6 +123,7 @@ var Ops = []Op{
 	repl(kHead, "date-valid-other", replaceDate("2024-02-29")), // rule-preserving
 	// --- headline
 	repl(kHead, "headline-extra-text", func(l, _ string) string { return l + " foo" }),
+	repl(kHead, "headline-extra-percent", func(l, _ string) string { return l + " 100%d %s" }),
 	repl(kHead, "headline-should-without-bang", func(l, _ string) string { return l[:10] + " (8h)" }),
 	repl(kHead, "headline-should-empty", func(l, _ string) string { return l[:10] + " ()" }),
 	repl(kHead, "headline-should-unclosed", func(l, _ string) string { return l[:10] + " (8h!" }),
@@ -194,6 +195,7 @@ var Ops = []Op{
 	repl(kEnt, "value-duration-double-sign", replaceValue("--1h")),
 	repl(kEnt, "value-duration-upper", replaceValue("1H")),
 	repl(kEnt, "value-garbage", replaceValue("foo")),
+	repl(kEnt, "value-percent", replaceValue("50%")),
 	repl(kEnt, "value-empty-hash", replaceValue("#tag")),
 	repl(kEnt, "value-valid-duration", replaceValue("-2h5m")), // rule-preserving
 	// --- structure
